@@ -849,7 +849,13 @@ pub fn run(seed: u64, count: u64, corpus: Option<&str>, em: &mut Emitter) {
             }
         }
     }
-    let mut rng = Rng::new(seed);
+    // `Rng::new` maps consecutive seeds to shifted copies of one stream; start from a state
+    // derived from the mixed outputs instead, so that different seeds give unrelated streams
+    let mut rng = {
+        let mut r = Rng::new(seed);
+        let (a, b) = (r.next(), r.next());
+        Rng(a ^ b.rotate_left(32) ^ seed.wrapping_mul(0xD6E8_FEB8_6659_FD93))
+    };
     // the flag table: every listed flag once per run, plus near misses
     if count > 0 {
         for f in FLAGS.iter().chain(["-M", "--messages", "-m=x", "--message=x", "", "m", "-B", "-U"].iter()) {
